@@ -268,6 +268,31 @@ pub fn damage_text(rng: &mut Rng, s: &str) -> String {
     if b.is_empty() {
         return "<".into();
     }
+    // damage that a parser which has grown careless about uniqueness would let through: the tree
+    // it then hands out has an attribute name or a prefix twice
+    if s.starts_with('<') && !s.starts_with("<?") && !s.starts_with("<!") && rng.pct(30) {
+        if let Some(i) = s.find(|c: char| c == '>' || c == '/' || c == ' ') {
+            let ins = match rng.below(4) {
+                0 => " xmlns:zx=\"http://www.w3.org/XML/1998/namespace\" zx:lang=\"a\" xml:lang=\"b\"".to_string(),
+                1 => " xmlns:zq=\"urn:zz\" zq:k=\"1\" xmlns:zr=\"urn:zz\" zr:k=\"2\"".to_string(),
+                2 => {
+                    // (either order: whichever of the two prefixes the store met first, one of the
+                    // orders has ids that do not ascend)
+                    if rng.pct(50) {
+                        // (the empty prefix has the lowest id of all)
+                        " xmlns:zf=\"urn:1\" xmlns=\"urn:dd\" xmlns:zf=\"urn:3\"".to_string()
+                    } else {
+                        let (a, b2) = if rng.pct(50) { ("zf", "zd") } else { ("zd", "zf") };
+                        format!(" xmlns:{}=\"urn:1\" xmlns:{}=\"urn:dd\" xmlns:{}=\"urn:3\"", a, b2, a)
+                    }
+                }
+                _ => " zk=\"1\" zl=\"2\" zk=\"3\"".to_string(),
+            };
+            let mut t = s.to_string();
+            t.insert_str(i, &ins);
+            return t;
+        }
+    }
     match rng.below(6) {
         0 => {
             let cut = rng.below(b.len());
@@ -758,7 +783,9 @@ fn try_gen_op(m: &Model, rng: &mut Rng, prof: &Profile, home: &[Lid]) -> Option<
                 if rng.pct(4) {
                     // the built-in pair, declared (or removed again) explicitly
                     prefix = "xml".into();
-                    uri = absdoc::XML_NS.into();
+                    // (the API lets the prefix be bound to something else as well; names in that
+                    // namespace below are then written with it)
+                    uri = if rng.pct(30) { rng.pick_str(&URIS).to_string() } else { absdoc::XML_NS.into() };
                 }
                 if rng.pct(12) {
                     let mut items = vec![if rng.pct(80) { ViewStep::Insert(prefix.clone(), uri) } else { ViewStep::Get(prefix.clone()) }];
